@@ -633,6 +633,64 @@ class Gen:
                     prot = r.choice([I(1), N_, S("no")])
                 self.emit("ld", self.slot(), mode, data.hex(), fmt, prot)
 
+    def t_lazy(self):
+        """lazy loaders: several Loader objects, some on one shared file object, iterated in interleaved steps"""
+        r = self.r
+        files = []
+        for _ in range(r.randint(1, 2)):
+            fmt = r.choice(["jaspar", "jaspar16", "uniprobe", "transfac"])
+            n = r.randint(0, 4) if self.chance(0.8) else r.randint(30, 70)     # beyond one 8 KiB buffer sometimes
+            data = self.file_text(fmt, False, n, r.choice([None, None, None, "garble", "crlf"]))
+            fl = self.slot()
+            self.emit("fo", fl, data.hex() or "-")
+            files.append((fl, fmt))
+        loaders = []
+        for _ in range(r.randint(2, 4)):
+            fl, fmt = r.choice(files)
+            ld = self.slot()
+            f = S(fmt) if self.chance(0.9) else r.choice([S("jaspar16"), S("transfac"), None, S("bad")])
+            # protein readers are not mirrored by lmcore: a protein loader is only asked for where it is refused
+            prot = T_ if (f == S("jaspar") and self.chance(0.3)) else r.choice([None, F_, None])
+            self.emit("ll", ld, fl, f, prot)
+            loaders.append(ld)
+            if self.chance(0.5):
+                self.emit("ln", ld, r.choice([1, 1, 2]))
+        for _ in range(r.randint(3, 8)):
+            self.emit("ln", r.choice(loaders), r.choice([1, 1, 2, 3, 40]))
+        if self.chance(0.3):
+            self.emit("dl", files[0][0])
+            self.emit("ln", r.choice(loaders), 2)
+
+    def t_two_scanners(self):
+        """two scanners with motifs of different widths on one sequence, interleaved with each other and with calculate"""
+        r = self.r
+        q, n = self.make_seq(False, r.choice([64, 129, 200, 320, 700]))
+        w1 = r.randint(2, 6)
+        w2 = w1 + r.randint(3, 30)
+        s1 = self.make_motif(False, w1, clean=True)
+        s2 = self.make_motif(False, w2, route="cr", clean=True)
+        first, second = (s1, s2) if self.chance(0.5) else (s2, s1)
+        a, b = self.slot(), self.slot()
+        thr = [r.choice([F(-5.0), F(0.0), F(-15.0), F(1.0)]) for _ in range(2)]
+        bs = [r.choice([None, I(1), I(3), I(16), I(256)]) for _ in range(2)]
+        self.emit(r.choice(["sn", "sc"]), a, ("V", first), ("V", q), thr[0], bs[0])
+        self.emit("nx", a, r.choice([0, 1, 2]))
+        self.emit(r.choice(["sn", "sc"]), b, ("V", second), ("V", q), thr[1], bs[1])     # reconfigures q under scanner a
+        for _ in range(r.randint(2, 6)):
+            k = r.random()
+            if k < 0.4:
+                self.emit("nx", a, r.choice([1, 2, 3]))
+            elif k < 0.8:
+                self.emit("nx", b, r.choice([1, 2, 3]))
+            else:
+                sc = self.slot()
+                self.emit("ca", sc, r.choice([s1, s2]), ("V", q))
+                self.emit(r.choice(["mx", "am"]), sc)
+        self.emit("nx", a, "*")
+        self.emit("nx", b, "*")
+        if self.chance(0.3):
+            self.emit("mt", s1, r.choice([2, 3]), "r")
+
     def t_equal(self):
         """==, copies and str: equal data from different routes, the number of sequences, other alphabets"""
         r = self.r
@@ -741,7 +799,11 @@ class Gen:
             self.t_lifetime()
         elif r < 0.74:
             self.t_equal()
-        elif r < 0.88:
+        elif r < 0.79:
+            self.t_lazy()
+        elif r < 0.84:
+            self.t_two_scanners()
+        elif r < 0.93:
             self.t_load()
         else:
             self.t_invalid()
